@@ -583,7 +583,9 @@ func runSpecsInChildren(r *Run, all []injSpec) (chan []injResult, []string) {
 func runC05(r *Run, rng *rand.Rand, thorough bool) {
 	r.Rule = "fault injection: one party deviates by altering one field of one message type (+1, random same-size, the value of another party's corresponding message, emptied, list removed) or by replaying another party's whole message; every protocol, every position, every byte field found by protobuf reflection (each element of list fields, sampled for long lists); injections run in child processes so that a crash in a library goroutine is attributed to its injection; non-trivial = one applied injection; direct assertions: no honest output is invalid, every reported error names nobody but the deviator, a detected alteration names exactly the deviator, no crash"
 	blameCorrespondence(r, rng, thorough)
+	blameCorrespondenceSg(r, rng, thorough)
 	blameCorrespondenceEc(r, rng, thorough)
+	blameCorrespondenceRsEc(r, rng, thorough)
 	reshareForgery(r, rng, "ed")
 	reshareForgery(r, rng, "ec")
 	protos := c05Protos(rng)
